@@ -471,7 +471,9 @@ func (r *Redir) Pos() Pos {
 func (r *Redir) End() Pos {
 	switch r.Op {
 	case "<<", "<<-":
-		return r.Delim.End()
+		if len(r.Delim) != 0 {
+			return r.Delim.End()
+		}
 	}
 	return r.Word.End()
 }
